@@ -86,13 +86,16 @@ func (d *DBFT[H]) checkPreCommit() {
 		d.preBlockProcessed = true
 	}
 
+	// Header is available starting from this point, check the Commits that
+	// were received earlier.
+	d.verifyCommitPayloadsAgainstHeader()
+
 	// Require PreCommit sent by self for reliability. This condition must not be
 	// removed because:
 	// 1) we need to filter out WatchOnly nodes;
 	// 2) CNs that have not sent PreCommit must not skip this stage (although it's OK
 	//    from the DKG/TPKE side to build final Block based only on other CN's data).
 	if d.PreCommitSent() {
-		d.verifyCommitPayloadsAgainstHeader()
 		d.sendCommit()
 		d.changeTimer(d.timePerBlock)
 		d.checkCommit()
